@@ -173,7 +173,16 @@ func cmdRun(args []string) {
 	maxPaths := fs.Int("max-paths", 0, "max paths")
 	slog := fs.String("solver-log", "", "log solver input of worker 0")
 	solver := fs.String("solver", "z3", "solver")
+	paramS := fs.String("params", "", "N=2,P=1")
 	fs.Parse(args)
+	params := map[string]int{}
+	for _, kv := range strings.Split(*paramS, ",") {
+		if i := strings.Index(kv, "="); i > 0 {
+			var v int
+			fmt.Sscanf(kv[i+1:], "%d", &v)
+			params[kv[:i]] = v
+		}
+	}
 	overlay := map[string]string{"/verif/rt": "zzverif/rt", "/verif/models": "zzverif/models"}
 	if *dir != "" {
 		overlay[*dir] = *dst
@@ -196,6 +205,7 @@ func cmdRun(args []string) {
 	cfg.MaxPaths = *maxPaths
 	cfg.SolverLog = *slog
 	cfg.Solver = *solver
+	cfg.Params = params
 	sum := Explore(prog, fn, cfg)
 	printSummary(sum)
 }
